@@ -181,6 +181,7 @@ def target(h0: int, h1: int, h2: int, port: int, p0: int, p1: int) -> bool:
 DAMAGED = {
     'nobracket': b'http://[::1/x', 'badport': b'http://h.example:8{}/', 'badport2': b'h.example:{}{}', 'emptyhost': b'http://:80/',
     'emptyhost2': b':443', 'scheme': b'ft{}://h.example/', 'emptyport': b'http://h.example:/', 'negport': b'http://h.example:-{}/',
+    'port0': b'http://h.example:0/{}', 'port00': b'http://h.example:00/{}', 'port0c': b'h.example:0', 'port000c': b'h.example:000',
     'bigport': b'http://h.example:6553{}/', 'spacehost': b'http://h{}e/', 'badutf8': b'http://ex{}ample.com/', 'badutf8c': b'ex{}ample.com:443',
 }
 
@@ -205,6 +206,8 @@ def damaged(c0: int, c1: int) -> bool:
         return skip()
     if kind == 'negport' and not (49 <= c0 <= 57):
         return skip()
+    if kind in ('port0', 'port00') and (c0 > 126 or c0 == 35):
+        return skip()      # path character after a target naming port 0: no such TCP port can be connected to
     if kind == 'bigport' and not (54 <= c0 <= 57):
         return skip()      # 65536..65539
     if kind in ('badutf8', 'badutf8c') and c0 < 128:
@@ -293,10 +296,10 @@ META = {
         'quick': 'forms: absolute http://, scheme-less //, CONNECT authority; hosts: reg-names with 1-3 symbolic [a-z0-9] characters, IPv4 '
                  'with 2 symbolic digits, 6 IPv6 spellings (::x, x::1, 2001:db8::x:1, ::ffff:1.2.3.x, full form, ::) with a symbolic hex digit; '
                  'port absent or symbolic 1..65535 rendered with str(); optional userinfo u:p; path of 0..2 symbolic visible characters; '
-                 'damaged: missing bracket, non-numeric/empty/negative/over-range port, empty host, unknown scheme',
+                 'damaged: missing bracket, non-numeric/empty/negative/over-range/zero port, empty host, unknown scheme',
         'thorough': 'all combinations of form x host x port x path x userinfo',
     },
-    'outside': 'port 0 (and -0); symbolic digits inside an IPv4-mapped IPv6 literal (CrossHair mis-executes ipaddress on that symbolic string: its counterexample did not reproduce natively, so the spelling is checked with concrete digits); userinfo without colon; IDNA / non-ASCII hosts; origin-form targets (no outbound connection); targets with more than '
+    'outside': 'symbolic digits inside an IPv4-mapped IPv6 literal (CrossHair mis-executes ipaddress on that symbolic string: its counterexample did not reproduce natively, so the spelling is checked with concrete digits); userinfo without colon; IDNA / non-ASCII hosts; origin-form targets (no outbound connection); targets with more than '
                '3 symbolic characters',
     'stubs': ['socket.socket / socket.create_connection inside proxy.common.utils replaced by recorders (the real new_socket_connection and '
               'its ipaddress-based literal/name dispatch run symbolically)', 'FakeSocket client; integer clock'],
